@@ -18,7 +18,7 @@ EXPLANATION = (
     'bounded symbolic execution of the real fdl.build(Partial) -> Partial.__build__ / ArgFactory.__build__ / '
     '_build_partial / _promote_arg_factory / _invoke_arg_factories / arg_factory.partial / _InvokeArgFactoryWrapper '
     'and of the calls of the built callable (CrossHair + z3): each argument slot (positional-only, '
-    'positional-or-keyword, *args elements, keyword-only, **kwargs entry) takes one of 12 nesting kinds, the kinds '
+    'positional-or-keyword, *args elements, keyword-only, **kwargs entry) takes one of 16 nesting kinds, the kinds '
     'of two slots are solver-enumerated per cube, two or three calls each override a solver-chosen subset of keywords '
     'with unbounded symbolic ints; results and aliasing across all calls are compared (canonical form of the list of '
     'all call results) with a closure-based reference model of functools.partial plus per-call factory invocation')
@@ -33,6 +33,11 @@ class Obj:
   def __init__(self, name=None, x=None, y=None):
     self.name, self.x, self.y = name, x, y
     sigs.LOG.append(('Obj', name))
+
+
+def objp(x=None, /, *rest):
+  """Takes its arguments positionally only (a positional-only parameter and *args)."""
+  return Obj('objp', x=x, y=rest)
 
 
 def _show(v):
@@ -62,7 +67,9 @@ FNS = [f0, f1, F2]
 KINDS = ['value', 'Config', 'ArgFactory', '[ArgFactory, value]', "{'k': ArgFactory}", 'ArgFactory(ArgFactory)',
          'ArgFactory(Config)', 'Partial(ArgFactory)', '[Config, value] (no factory)', '(ArgFactory, [ArgFactory], [value])',
          '[ArgFactory, same ArgFactory]', '[ArgFactory, equal ArgFactory]',
-         '[bare ArgFactory, equal bare ArgFactory]']
+         '[bare ArgFactory, equal bare ArgFactory]', "[ArgFactory, {'d': value}, [value], {}] (factory-free siblings)",
+         'ArgFactory(fn, value) - positional arguments only', 'ArgFactory(fn, ArgFactory, value) - positional, nested']
+NK = len(KINDS)
 
 
 def spec(kind, v, tag):
@@ -91,7 +98,14 @@ def spec(kind, v, tag):
     return ('list', [shared, shared])           # one ArgFactory instance referenced twice
   if kind == 11:
     return ('list', [('fac', tag, {}), ('fac', tag, {})])   # two equal but distinct ArgFactory instances
-  return ('dict', {'u': ('fac0', 1), 'w': [('fac0', 2)][0], 'n': ('list', [('fac0', 3)])})   # argument-less, distinct
+  if kind == 12:
+    return ('dict', {'u': ('fac0', 1), 'w': [('fac0', 2)][0], 'n': ('list', [('fac0', 3)])})   # argument-less, distinct
+  if kind == 13:
+    # factory-free containers (a non-empty dict, a list, an empty dict) next to a factory: passed through uncopied
+    return ('list', [('fac', tag, {}), ('dict', {'d': ('val', v)}), ('list', [('val', v)]), ('dict', {})])
+  if kind == 14:
+    return ('facp', tag, [('val', v)])
+  return ('facp', tag, [('fac', tag + 'i', {}), ('val', v), ('list', [('val', v)])])
 
 
 def to_fdl(s, memo):
@@ -102,6 +116,10 @@ def to_fdl(s, memo):
     return s[1]
   if k == 'fac0':
     r = fdl.ArgFactory(Obj)
+    memo[id(s)] = r
+    return r
+  if k == 'facp':
+    r = fdl.ArgFactory(objp, *[to_fdl(c, memo) for c in s[2]])
     memo[id(s)] = r
     return r
   if k in ('cfg', 'fac', 'partial'):
@@ -119,7 +137,7 @@ def to_fdl(s, memo):
 
 def has_fac(s):
   k = s[0]
-  if k in ('fac', 'fac0'):
+  if k in ('fac', 'fac0', 'facp'):
     return True
   if k in ('val', 'cfg', 'partial'):
     return False
@@ -147,6 +165,9 @@ def ref_thunk(s, memo):
     t = (lambda o=obj: o)
   elif k == 'fac0':
     t = (lambda: Obj())
+  elif k == 'facp':
+    kids = [ref_thunk(c, memo) for c in s[2]]
+    t = (lambda kids=kids: objp(*[th() for th in kids]))                       # fresh on every call
   elif k == 'fac':
     kids = {n: ref_thunk(c, memo) for n, c in s[2].items()}
     t = (lambda name=s[1], kids=kids: Obj(name, **{n: th() for n, th in kids.items()}))   # fresh on every call
@@ -193,10 +214,10 @@ def c04_calls(fn: int, ka: int, kb: int, kc: int, ke: int, top: int, ncalls: int
   fn: 0 keyword slots a, b, c + **kw entry e; 1 positional-only p, a, two *args elements, c; 2 a class.
   top: 0 fdl.Partial at the root; 1 the Partial sits inside a Config argument list (built as part of a larger graph).
   m_i: bit 0 overrides b (fn 1: nothing), bit 1 overrides c, bit 2 overrides e (fn 1: appends a call-time positional).
-  require: 0 <= fn <= 2 and 0 <= ka <= 12 and 0 <= kb <= 12 and 0 <= kc <= 12 and 0 <= ke <= 12 and 0 <= top <= 1
+  require: 0 <= fn <= 2 and 0 <= ka <= 15 and 0 <= kb <= 15 and 0 <= kc <= 15 and 0 <= ke <= 15 and 0 <= top <= 1
   require: 1 <= ncalls <= 3 and 0 <= m1 <= 7 and 0 <= m2 <= 7 and 0 <= m3 <= 7
   """
-  ka, kb, kc, ke = _conc(ka, 0, 12), _conc(kb, 0, 12), _conc(kc, 0, 12), _conc(ke, 0, 12)
+  ka, kb, kc, ke = _conc(ka, 0, NK - 1), _conc(kb, 0, NK - 1), _conc(kc, 0, NK - 1), _conc(ke, 0, NK - 1)
   fn, ncalls = _conc(fn, 0, 2), _conc(ncalls, 1, 3)
   masks = [_conc(m1, 0, 7), _conc(m2, 0, 7), _conc(m3, 0, 7)][:ncalls]
   specs = {'a': spec(ka, v, 'A'), 'b': spec(kb, v + 1, 'B'), 'c': spec(kc, v + 2, 'C'), 'e': spec(ke, v + 3, 'E')}
@@ -274,28 +295,28 @@ def c04_calls(fn: int, ka: int, kb: int, kc: int, ke: int, top: int, ncalls: int
 def obligations(tier, seed):
   cubes = []
   for fn in range(3):
-    for ka in range(13):
-      for kb in range(13):
-        if tier == 'quick' and (ka * 13 + kb + fn) % 5:
+    for ka in range(NK):
+      for kb in range(NK):
+        if tier == 'quick' and (ka * NK + kb + fn) % 5:
           continue
         j = fn + ka + kb
         fix = dict(fn=fn, ka=ka, kb=kb, top=j % 2, ncalls=2 if tier == 'quick' else 3)
         if tier == 'quick':
-          fix.update(ke=(ka + 2 * kb + 1) % 13, m1=(j * 3) % 8, m3=0)
-        cubes.append(Cube(f'f{fn}_a{ka}_b{kb}', [], fix, est=12 * 8 if tier == 'quick' else 12 * 12 * 512))
+          fix.update(ke=(ka + 2 * kb + 1) % NK, m1=(j * 3) % 8, m3=0)
+        cubes.append(Cube(f'f{fn}_a{ka}_b{kb}', [], fix, est=NK * 8 if tier == 'quick' else NK * NK * 512))
   if tier != 'quick':
     # thorough: kc symbolic, ke and the first mask by cube
     cubes = []
     for fn in range(3):
-      for ka in range(13):
-        for kb in range(13):
-          for ke in range(13):
+      for ka in range(NK):
+        for kb in range(NK):
+          for ke in range(NK):
             if (ka + kb + ke + fn) % 4:
               continue
             cubes.append(Cube(f'f{fn}_a{ka}_b{kb}_e{ke}', [], dict(fn=fn, ka=ka, kb=kb, ke=ke, top=(ka + ke) % 2, ncalls=3,
-                                                                m1=(ka + kb) % 8, m3=(kb + ke) % 8), est=12 * 8))
+                                                                m1=(ka + kb) % 8, m3=(kb + ke) % 8), est=NK * 8))
   t = 300 if tier == 'quick' else 900
   smoke = dict(fn=0, ka=2, kb=3, kc=6, ke=7, top=0, ncalls=3, m1=0, m2=5, m3=2, v=3, o1=50, o2=60)
   return [Obligation('c04_calls', c04_calls, cubes, timeout=t, path_timeout=40, smoke=smoke,
-                     extra_smokes=[dict(smoke, fn=k % 3, ka=k, kb=(k + 4) % 13, kc=(k + 7) % 13, ke=(k + 9) % 13, top=k % 2,
-                                        m1=k % 8, m2=(k + 3) % 8) for k in range(13)])]
+                     extra_smokes=[dict(smoke, fn=k % 3, ka=k, kb=(k + 4) % NK, kc=(k + 7) % NK, ke=(k + 9) % NK, top=k % 2,
+                                        m1=k % 8, m2=(k + 3) % 8) for k in range(NK)])]
